@@ -1018,5 +1018,12 @@ def rule_plumbing(ctx):
     plumbing.rule_sender_hooks(ctx, 'C11.e')
 
 
+
+def rule_termination_event(ctx):
+    """C11.k (QUIC)  every ConnectionTerminated event queues the end-of-connection marker (rules/msgtransports.py)."""
+    from .msgtransports import rule_termination_event_signalled as r
+    r(ctx, 'C11.k')
+
+
 RULES = [('C11.a', rule_a), ('C11.b', rule_b), ('C11.b', rule_b2), ('C11.c', rule_c), ('C11.d', rule_d), ('C11.e', rule_e),
-         ('C11.f', rule_f), ('C11.g', rule_g), ('C11.h', rule_h), ('C11.i', rule_i), ('C11.f', rule_wrap), ('C11.g+C11.e', rule_plumbing), ('C11.j', rule_group_close), ('C11.k', rule_k), ('C11.l', rule_l), ('C11.m', rule_m)]
+         ('C11.f', rule_f), ('C11.g', rule_g), ('C11.h', rule_h), ('C11.i', rule_i), ('C11.f', rule_wrap), ('C11.g+C11.e', rule_plumbing), ('C11.j', rule_group_close), ('C11.k', rule_k), ('C11.l', rule_l), ('C11.m', rule_m), ('C11.k', rule_termination_event)]
